@@ -36,6 +36,15 @@ def tname(v):
     return type(v).__name__
 
 
+def tclass(v):
+    """Coarse class of a non-dict value met on a path: str | list | scalar."""
+    if isinstance(v, str):
+        return "str"
+    if isinstance(v, (list, tuple)):
+        return "list"
+    return "scalar"
+
+
 def shape(ctx, path):
     """How *path* relates to *ctx*: present | absent | path-through-<type> | empty-key."""
     if not path:
@@ -43,7 +52,7 @@ def shape(ctx, path):
     cur = ctx
     for k in path:
         if not isd(cur):
-            return "path-through-" + tname(cur)
+            return "path-through-" + tclass(cur)
         if k not in cur:
             return "absent"
         cur = cur[k]
